@@ -110,6 +110,7 @@ package stack
 //@   ensures [lookingPassThrough C02] old(s.state) == looking ==> result1 == nil && (!result0 ==> s.state == looking)
 //@   ensures [consumedLeavesLooking C02] result0 ==> s.state != looking
 //@   ensures [uniformIndentation C01] old(s.state) != looking && s.state != done && s.state != looking ==> sameslice(s.prefix, old(s.prefix))
+//@   ensures [indentationKeptAsItsOwnCopy C01 C09] old(s.state) == looking && s.state == gotRoutineHeader ==> len(s.prefix) == 0 || fresh(s.prefix)
 //@   ensures [growOnly C01 C10] len(s.Goroutines) >= old(len(s.Goroutines)) && len(s.Goroutines) <= old(len(s.Goroutines)) + 1 && forall i :: 0 <= i && i < old(len(s.Goroutines)) ==> s.Goroutines[i] == old(s.Goroutines[i])
 
 //@   ensures [functionLineAddsOneFrameToTheCurrentGoroutine C01 C08] (old(s.state) == gotRoutineHeader || old(s.state) == gotFileFunc || old(s.state) == gotRaceOperationHeader || old(s.state) == gotRaceOperationFile) && (s.state == gotFunc || s.state == gotRaceOperationFunc) ==> len(s.Goroutines) == old(len(s.Goroutines)) && len(s.Goroutines[len(s.Goroutines)-1].Stack.Calls) == old(len(s.Goroutines[len(s.Goroutines)-1].Stack.Calls)) + 1 && (forall k :: 0 <= k && k < old(len(s.Goroutines[len(s.Goroutines)-1].Stack.Calls)) ==> s.Goroutines[len(s.Goroutines)-1].Stack.Calls[k].Line == old(s.Goroutines[len(s.Goroutines)-1].Stack.Calls[k].Line) && s.Goroutines[len(s.Goroutines)-1].Stack.Calls[k].RemoteSrcPath == old(s.Goroutines[len(s.Goroutines)-1].Stack.Calls[k].RemoteSrcPath) && s.Goroutines[len(s.Goroutines)-1].Stack.Calls[k].Func.Complete == old(s.Goroutines[len(s.Goroutines)-1].Stack.Calls[k].Func.Complete) && sameslice(s.Goroutines[len(s.Goroutines)-1].Stack.Calls[k].Args.Values, old(s.Goroutines[len(s.Goroutines)-1].Stack.Calls[k].Args.Values)))
